@@ -1,1 +1,2 @@
 pub mod pool;
+pub mod math;
